@@ -196,7 +196,7 @@ def work(job):
 
 def main():
     chk = core.Check(ID)
-    n = chk.scale(600, 30000)
+    n = chk.scale(2000, 60000)
     kmax = 8 if not chk.thorough else 40
     chk.rule = ('history i = f(VERIF_SEED, i): 1..%d steps in one worker process over a pool of ~45 documents (e-mail autolinks, notes, citations, glossary, '
                 'headings/TOC, tables, images+css, metadata, CriticMarkup, corpus, generated, one multi-slab document); each step converts through a random API '
